@@ -767,13 +767,20 @@ class Engine:
 
     def new_rec(self, pairs):
         """pairs: list of (key, V)"""
-        ty = ("rec", tuple((k, self.fields.get("rec." + k) or (("opt", v.ty) if v.none is not None else v.ty)) for k, v in pairs))
+        fs = [(k, self.fields.get("rec." + k) or (("opt", v.ty) if v.none is not None else v.ty)) for k, v in pairs]
+        # keys that the function may add later to this literal (declared in the contract): optional keys of the record type
+        for trigger, extra in self.c.d.get("rec_extra", {}).items():
+            if any(k == trigger for k, _ in pairs):
+                fs += [("?" + ek, parse_type(et)) for ek, et in extra.items()]
+        ty = ("rec", tuple(fs))
         ref = self.alloc()
         self.set_kind(ref, "rec")
         r = V(ty, ref)
         for k, v in pairs:
             self.fld_write(r, k, v)
             self.st.heap.store(f"has.{k}", B, ref, z3.BoolVal(True))
+        for k, _ in fs[len(pairs):]:
+            self.st.heap.store(f"has.{k[1:]}", B, ref, z3.BoolVal(False))
         return r
 
     def new_tuple(self, items):
@@ -1110,6 +1117,16 @@ class Engine:
             return {"Lt": lt(a.z, b.z), "Gt": lt(b.z, a.z), "LtE": z3.Not(lt(b.z, a.z)), "GtE": z3.Not(lt(a.z, b.z))}[o]
         if self.st.spec and (a.ty == "none" or b.ty == "none"):
             return z3.BoolVal(False)  # spec: an ordering against None is false (guard it with isnone)
+        if (a.ty == "any") != (b.ty == "any") and (a.ty in ("int", "real", "bool") or b.ty in ("int", "real", "bool")):
+            # a JSON value compared with a number: unboxed through the (assumed total) numeric view of untyped values (A-JSON-NUM)
+            def unbox(x, other):
+                if x.ty != "any":
+                    return x
+                if other.ty == "real":
+                    return V("real", z3.Function("any_real", I, R)(x.z))
+                return V("int", z3.Function("any_int", I, I)(x.z))
+
+            a, b = unbox(a, b), unbox(b, a)
         for x in (a, b):
             if x.ty not in ("int", "real", "bool"):
                 raise OutOfSubset(f"ordering on {x.ty}: {U(e) if e is not None else ''}")
